@@ -1101,6 +1101,8 @@ func (x *Exec) runNode(fr *frameRun, n *xnode) error {
 				if len(lits) > 0 && len(lits) < 400 {
 					if r := tb.RewriteUnder(ct, lits, nlits, map[int]*Term{}); r.IsConst() {
 						ct = r
+					} else if os.Getenv("GOCV_DEBUG_IF") != "" && x.ghost == 0 {
+						fmt.Fprintf(os.Stderr, "IF %s: %s\n   under %d lits; full=%s\n", x.posStr(in.Pos()), r.Pretty(200), len(lits), x.full(st).Pretty(300))
 					}
 				}
 			}
